@@ -52,6 +52,7 @@ func runC17(c *Ctx) {
 	L.Floor("input-unmodified", 4, "four functions, two inputs each (floor = half of the instances on the pinned tree: a clean-up may merge instances, a rule that sees nothing must still fail)")
 	c.checkSiteSelectionFresh("site-selection-fresh")
 	c.checkPairScanFull("pair-scan-full")
+	c.checkArgNameOrder("arg-name-order", "distance/protein", "models", "models/protein")
 }
 
 // denseSet describes a call M.Set(i, j, v) on a gonum Dense.
